@@ -554,6 +554,21 @@ class Stage:
             from copy import deepcopy
             self._param_vals[parameter] = deepcopy(value)
         for_all_primitives(parameter, value, action, "First argument to set_value must be a parameter or a simple concatenation of parameters", rhs_type=DM)
+        if is_transcribed and self.master._guesses_may_depend_on_parameters():
+            # Like at transcription, where guesses are evaluated after the parameters got their values:
+            # guesses given as expressions (and the guesses of the local time-grid variables of a
+            # parametric horizon) may depend on the parameter that was just given a new value
+            for s in self.master.iter_stages(include_self=True):
+                s._method.apply_initial(s._augmented, self.master._method, s._initial)
+
+    def _guesses_may_depend_on_parameters(self):
+        from .casadi_helpers import is_numeric
+        for s in self.iter_stages(include_self=True):
+            if any(not is_numeric(e) for e in s._initial.values()):
+                return True
+            if any(isinstance(h, MX) and not is_numeric(h) for h in [s._T, s._t0]):
+                return True
+        return False
 
 
     def set_initial(self, var, value, priority=True):
